@@ -593,6 +593,9 @@ func c14RunHistory(t *testing.T, r *vkit.Run, rep *gixReporter, no, cache int, c
 		MaxLog: int64([]int{1, 1, 60, 200, 1 << 20}[rg.Intn(5)]),
 		PartN:  []int{1, 2, 8, 2}[rg.Intn(4)],
 		KeepSF: rg.Intn(4) == 3}
+	if crash {
+		cfg.KeepSF = false // index-level series sets are supersets in that mode; the crash bracket needs exact ones
+	}
 	x, err := gixOpen(filepath.Join(dir, "db"), cfg.MaxLog, cache, cfg.PartN)
 	if err != nil {
 		t.Fatal(err)
@@ -651,6 +654,7 @@ type c14Image struct {
 }
 
 type c14Payload struct {
+	SFilePre  bool // the op in flight was a drop: the series file is written after the index log
 	Pre, Post c13Snap
 	Cfg       c14Cfg
 	Images    []c14Image
@@ -690,10 +694,18 @@ func (p *c14Payload) build(im c14Image) c13Snap {
 		}
 		return out
 	}
-	// torn_log: series file and everything else as after the op (the series file is synced before
-	// the log entry is written); logs appended by the op: the torn one, the others per Others
+	// torn_log: everything else as after the op; logs appended by the op: the torn one, the
+	// others per Others. Series file: a create syncs it BEFORE the log entry is written (post
+	// state); a drop tombstones it AFTER the index entries (pre state).
 	for rel, f := range p.Post {
 		out[rel] = f
+	}
+	if p.SFilePre {
+		for rel, f := range p.Pre {
+			if strings.HasPrefix(rel, "_series"+string(filepath.Separator)) {
+				out[rel] = f
+			}
+		}
 	}
 	if im.Others == "pre" {
 		for rel, f := range p.Pre {
@@ -975,7 +987,7 @@ func (j *c14Job) runChunk(images []c14Image, journal string) {
 	h := j.h
 	for len(images) > 0 {
 		os.Remove(journal)
-		pl, _ := json.Marshal(c14Payload{Pre: j.pre, Post: j.post, Cfg: h.cfg, Images: images, Journal: journal, After: j.after})
+		pl, _ := json.Marshal(c14Payload{SFilePre: j.op.Kind != "create" && j.op.Kind != "compact", Pre: j.pre, Post: j.post, Cfg: h.cfg, Images: images, Journal: journal, After: j.after})
 		res, err := vkit.RunChild("c14img", pl, 10*time.Minute)
 		if err != nil {
 			h.t.Errorf("C14: child: %v", err)
@@ -1158,8 +1170,8 @@ func TestC14(t *testing.T) {
 	r.Assume("a dropped series is also tombstoned in the series file (single-shard behaviour of the engine) except in histories marked series_file=kept, which model a series that other shards still hold",
 		"crash rule: the recovered series set lies between the state before and after the op in flight and every other answer lies between the answers derived from those two states; compaction changes nothing")
 	rep := newGixReporter(r, 1)
-	n := gixN(r, 40, 1500)
-	crashN := r.N(5, 80)
+	n := gixN(r, 30, 400)
+	crashN := r.N(4, 40)
 	every := n / crashN
 	if every < 1 {
 		every = 1
